@@ -333,7 +333,7 @@ def pick_tol(kolds):
 
 
 def build_cases(tier):
-    nseeds = {"quick": 2, "thorough": 10}[tier]
+    nseeds = {"quick": 2, "thorough": 8}[tier]
     cases, lsq = [], []
     cid, kid = 0, 500000
     for cplx in (False, True):
@@ -459,7 +459,7 @@ def coq_eval(tag, cases, outs, fixed=False):
 CORR_CODES = {1, 2, 3, 5, 6, 7, 13, 15}
 
 
-def run(tier):
+def run(tier, pid="C09"):
     """Everything both properties need; cached on (repo, harness, tier, seed)."""
     cf = common.cache_file("c09run", tier)
     if os.path.exists(cf):
@@ -479,7 +479,7 @@ def run(tier):
             bad, ncmp, info = [("error", "%s: %s" % (type(e).__name__, e))], 0, {}
         lres.append((bad, ncmp, info))
     t_py = time.time() - t0
-    codes, t_coq, nfiles, kases = coq_eval("C09", cases, outs)
+    codes, t_coq, nfiles, kases = coq_eval(pid, cases, outs)
     # second pass: kases in the trigger region of the known setup defect whose
     # CORRESPONDENCE failed are re-checked against the repaired model (fixed = true)
     bad_k = {c["kid"] for c in cases if c.get("coq") and k1_trigger(c["solver"], c["x0"], c["damp"])
@@ -487,7 +487,7 @@ def run(tier):
     fixed_ok = set()
     if bad_k:
         redo = [c for c in cases if c["kid"] in bad_k]
-        codes2, t2, _, _ = coq_eval("C09fix", redo, outs, fixed=True)
+        codes2, t2, _, _ = coq_eval(pid + "fix", redo, outs, fixed=True)
         t_coq += t2
         for kid in bad_k:
             rs = [c for c in redo if c["kid"] == kid and c.get("coq")]
@@ -596,10 +596,19 @@ def describe(c):
 
 def report(pid, tier):
     R = common.Report(pid, tier)
+    _viol, _cnt = R.violation, {}
+
+    def capped(what, replay, no_input=False):
+        # at most 6 replay files per kind of failure (disk); the total is still reported in the notes
+        k = replay.get("kind", "other") if isinstance(replay, dict) else "other"
+        _cnt[k] = _cnt.get(k, 0) + 1
+        if _cnt[k] <= 6:
+            _viol(what, replay, no_input)
+    R.violation = capped
     common.coq_build()
     own_coq_build()
     thms, axioms = common.props_assumptions(pid)
-    res = run(tier)
+    res = run(tier, pid)
     cases, outs, codes, kinfo = res["cases"], res["outs"], res["codes"], res["kinfo"]
     kinds, ccodes = KINDS[pid], CODES[pid]
     known = {k["id"]: k for k in PROPOSED_KNOWN}
@@ -607,6 +616,7 @@ def report(pid, tier):
         if isinstance(k, dict) and k.get("id") in known:
             known[k["id"]] = k
     nontriv, evals, corr_ok, corr_all = set(), 0, 0, 0
+    n_r1fixed = [0]
     dist = {}
     for c in cases:
         o = outs[c["id"]]
@@ -640,7 +650,7 @@ def report(pid, tier):
             corr_all += 1
             corr = (cs & CORR_CODES & ccodes) - ({6} if (6 in cs and 12 not in cs) else set())
             if 6 in cs and 12 not in cs:
-                R.notes.append("run %d: r1norm is truthful although the model (code as delivered) returns kold: K-cgls-r1norm appears repaired" % c["id"])
+                n_r1fixed[0] += 1
             if not corr:
                 corr_ok += 1
             elif not (found - {"r1norm"}):
@@ -663,6 +673,9 @@ def report(pid, tier):
                 c = next(c for c in cases if c["kid"] == kid)
                 R.violation("model-level check failed: %s [%s]" % (CODE_TXT[code_], describe(c)),
                             dict(replay_dict(c, "model-code-%d" % code_, CODE_TXT[code_])), no_input=True)
+    if n_r1fixed[0]:
+        R.notes.append("%d runs: r1norm is truthful although the model (code as delivered) returns kold: K-cgls-r1norm appears repaired"
+                       % n_r1fixed[0])
     if res["fixed_ok"]:
         R.notes.append("%d systems in the trigger region of K-cgls-setup-damp agree with the REPAIRED model (fixed=true) instead of the model "
                        "of the code as delivered: the defect appears repaired in this tree" % len(res["fixed_ok"]))
@@ -680,7 +693,7 @@ def report(pid, tier):
     R.cov.update(
         obligations=len(thms) + corr_all + nl, discharged=len(thms) + corr_ok + sum(1 for b, _, _ in res["lres"] if not [x for x in b if x[0] in kinds]),
         checker_cmd="make -C coq; coqc Solvers/CG.v Solvers/CGLS.v Corr/CheckC09.v; coqc Props/%s.v (Print Assumptions); "
-                    "coqc .work/C09/cases_*.v (vm_compute: pylops cg/cgls runs vs the Gallina model over Qc / Gaussian Qc); "
+                    "coqc .work/<pid>/cases_*.v (vm_compute: pylops cg/cgls runs vs the Gallina model over Qc / Gaussian Qc); "
                     "pylops.lsqr vs scipy.sparse.linalg.lsqr(iter_lim=k) per iteration" % pid,
         theorems=thms, axioms_reported=axioms, evaluations=evals, distinct_nontrivial=len(nontriv),
         rule="systems A = D + E (D diagonal in [6,12], E in [-2,2]; integers / Gaussian integers), square HPD (B^H B or symmetrised), "
@@ -699,6 +712,8 @@ def report(pid, tier):
                               "iiter": o["iiter"], "x": [str(t) for t in o["x"]], "cost": o["cost"][:4], "coq_codes": codes.get(c["id"], [])})
     if axioms and not set(axioms) <= common.ALLOWED_AXIOMS:
         R.violation("Props/%s.v depends on unexpected axioms %s" % (pid, axioms), {"axioms": axioms}, no_input=True)
+    if _cnt:
+        R.notes.append("failures by kind (all occurrences, replay files capped at 6 per kind): %s" % sorted(_cnt.items()))
     return R.finish()
 
 
